@@ -116,6 +116,8 @@ pub struct Mismatch {
     /// the actual value carries content that belongs to another operation
     pub foreign: bool,
     pub missing: bool,
+    /// context for signatures: adapter and phase of the stream, or empty
+    pub ctx: String,
 }
 
 pub struct WalkOpts {
@@ -135,6 +137,14 @@ pub fn walk_plain(sc: &Scenario, hist: &[Ev], opts: &WalkOpts) -> Vec<Mismatch> 
         let mut streams: BTreeMap<usize, Option<(StreamModel, String)>> = BTreeMap::new();
         for (ix, step) in cs.steps.iter().enumerate() {
             let actual = rets.get(&(c, ix)).map(|x| x.0);
+            let ctx = match step {
+                Step::Next { slot, .. } | Step::Finish { slot } | Step::State { slot } => match streams.get(slot) {
+                    Some(Some((m, _))) => format!("{:?}/{}", m.adapter, m.state.phase()),
+                    _ => String::new(),
+                },
+                Step::Op { op: OpSpec::Search(_), .. } => "search()".to_string(),
+                _ => String::new(),
+            };
             let mut check = |expected: Option<Ret>, alt_cancel: bool, own_tok: &str, fin: bool| {
                 let what = lifecycle(step);
                 match (actual, expected) {
@@ -146,6 +156,7 @@ pub fn walk_plain(sc: &Scenario, hist: &[Ev], opts: &WalkOpts) -> Vec<Mismatch> 
                         actual: "no return".into(),
                         foreign: false,
                         missing: true,
+                        ctx: ctx.clone(),
                     }),
                     (Some(_), None) => {}
                     (Some(a), Some(e)) => {
@@ -164,6 +175,7 @@ pub fn walk_plain(sc: &Scenario, hist: &[Ev], opts: &WalkOpts) -> Vec<Mismatch> 
                                 actual: s,
                                 foreign,
                                 missing: false,
+                                ctx: ctx.clone(),
                             });
                         }
                     }
@@ -189,12 +201,12 @@ pub fn walk_plain(sc: &Scenario, hist: &[Ev], opts: &WalkOpts) -> Vec<Mismatch> 
                     };
                     check(exp, cancel_after_polls.is_some(), token, false);
                 }
-                Step::Open { token, slot, adapter, .. } => {
+                Step::Open { token, slot, adapter, mods, .. } => {
                     if dropped {
                         check(Some(Ret::Skipped), false, token, false);
                         continue;
                     }
-                    let m = sc.plan.by_token.get(token).and_then(|p| StreamModel::open(p, *adapter));
+                    let m = sc.plan.by_token.get(token).and_then(|p| StreamModel::open(p, *adapter, mods.timeout_ms));
                     streams.insert(*slot, m.map(|m| (m, token.clone())));
                     check(Some(Ret::Opened), false, token, false);
                 }
@@ -344,4 +356,173 @@ pub fn clip(s: &str) -> String {
     } else {
         s.to_string()
     }
+}
+
+/// C10: search-stream state machine. Family STREAM.
+pub fn check_c10(sc: &Scenario, rr: &RunResult) -> Vec<Violation> {
+    let mut v = check_clean_run("C10", rr);
+    let dead = dead_clients(&rr.hist);
+    for m in walk_plain(sc, &rr.hist, &WalkOpts { strict_stream: true }) {
+        if m.missing && (dead.contains(&m.client) || rr.verdict != crate::exec::Verdict::Done) {
+            continue;
+        }
+        let clause = match m.what {
+            "state" => "C10.state",
+            "finish" => "C10.finish",
+            "search" => "C10.search",
+            _ => "C10.items",
+        };
+        let sig = format!("{}/{}{}", m.what, m.ctx, if m.missing { "/no-return" } else { "" });
+        v.push(Violation::new(
+            "C10",
+            clause,
+            sig,
+            format!("client {} step {}: expected {} got {}", m.client, m.step, clip(&m.expected), clip(&m.actual)),
+        ));
+    }
+    v
+}
+
+/// Lifecycle class of the operation that owns `token` (for leak signatures).
+pub fn lifecycle_class(sc: &Scenario, hist: &[Ev], token: &str) -> String {
+    let rets = returns_by_step(hist);
+    for (cidx, cs) in sc.clients.iter().enumerate() {
+        for (ix, st) in cs.steps.iter().enumerate() {
+            match st {
+                Step::Op { token: t, op, mods, .. } if t == token => {
+                    let kind = match op {
+                        OpSpec::Search(_) => "search()",
+                        OpSpec::Abandon(_) => "abandon",
+                        OpSpec::Unbind => "unbind",
+                        _ => "single",
+                    };
+                    let how = match sc.plan.by_token.get(token) {
+                        Some(ReplyPlan::Silent) if mods.timeout_ms.is_some() => "timed-out",
+                        Some(ReplyPlan::Silent) => "in-flight",
+                        Some(ReplyPlan::Paged) => "paged",
+                        _ => "completed",
+                    };
+                    return format!("{kind}/{how}");
+                }
+                Step::Open { token: t, slot, adapter, mods, .. } if t == token => {
+                    let mut saw_end = false;
+                    let mut saw_err = false;
+                    for (off, later) in cs.steps[ix + 1..].iter().enumerate() {
+                        match later {
+                            Step::Next { slot: s2, .. } if s2 == slot => match rets.get(&(cidx, ix + 1 + off)).map(|x| x.0) {
+                                Some(Ret::Item(None)) => saw_end = true,
+                                Some(Ret::Err(_)) => saw_err = true,
+                                _ => {}
+                            },
+                            Step::Finish { slot: s2 } | Step::DropStream { slot: s2 } if s2 == slot => break,
+                            Step::Open { slot: s2, .. } if s2 == slot => break,
+                            _ => {}
+                        }
+                    }
+                    let how = if saw_err {
+                        "errored"
+                    } else if matches!(sc.plan.by_token.get(token), Some(ReplyPlan::Paged)) {
+                        "paged"
+                    } else if saw_end {
+                        "read-to-end"
+                    } else {
+                        "finished-early"
+                    };
+                    let _ = mods;
+                    return format!("stream-{:?}/{how}", adapter).replace(|c: char| c.is_ascii_digit(), "").replace("()", "");
+                }
+                _ => {}
+            }
+        }
+    }
+    "unknown".into()
+}
+
+/// C13: no residue at quiescent points; abandon clauses. Family LEAK.
+pub fn check_c13(sc: &Scenario, rr: &RunResult) -> Vec<Violation> {
+    let mut v = check_clean_run("C13", rr);
+    let phantoms: std::collections::BTreeSet<i32> = sc.id_table.as_ref().map(|t| t.1.iter().copied().collect()).unwrap_or_default();
+    // id -> token as seen by the server
+    let mut tok_of: BTreeMap<i64, (String, String)> = BTreeMap::new();
+    for e in &rr.hist {
+        if let EvKind::SrvRecv { id, token, kind, .. } = &e.kind {
+            tok_of.insert(*id, (token.clone(), kind.clone()));
+        }
+    }
+    let class_of = |id: i32| -> String {
+        match tok_of.get(&(id as i64)) {
+            Some((t, k)) => {
+                let c = lifecycle_class(sc, &rr.hist, t);
+                if c == "unknown" {
+                    format!("{k}/own-id")
+                } else {
+                    c
+                }
+            }
+            None => "never-sent".into(),
+        }
+    };
+    let driver_alive_at = |seq: u64| !rr.hist.iter().any(|e| e.seq < seq && matches!(e.kind, EvKind::DriverExit { .. }));
+    for e in &rr.hist {
+        if let EvKind::Snapshot { label, in_use, resultmap, searchmap, .. } = &e.kind {
+            if !driver_alive_at(e.seq) {
+                continue;
+            }
+            for id in in_use.iter().filter(|i| !phantoms.contains(i)) {
+                v.push(Violation::new("C13", "C13.ids", format!("id-reserved/{}", class_of(*id)), format!("at {label} checkpoint (t={}ms) message ID {id} is still reserved although no operation is outstanding", e.t_ms)));
+            }
+            for id in resultmap {
+                v.push(Violation::new("C13", "C13.routing", format!("resultmap/{}", class_of(*id)), format!("at {label} checkpoint the single-result routing map still holds ID {id}")));
+            }
+            for id in searchmap {
+                v.push(Violation::new("C13", "C13.routing", format!("searchmap/{}", class_of(*id)), format!("at {label} checkpoint the search routing map still holds ID {id}")));
+            }
+        }
+    }
+    // abandon clauses
+    let rets = returns_by_step(&rr.hist);
+    let mut abandons_seen: Vec<i64> = rr.requests.iter().filter_map(|q| if let crate::msg::ReqOp::Abandon { id } = &q.op { Some(*id) } else { None }).collect();
+    for (c, cs) in sc.clients.iter().enumerate() {
+        for (ix, st) in cs.steps.iter().enumerate() {
+            if let Step::Op { op: OpSpec::Abandon(crate::scenario::IdRef::Token(target)), .. } = st {
+                let Some((ret, ..)) = rets.get(&(c, ix)) else { continue };
+                if **ret != Ret::Unit {
+                    continue;
+                }
+                // the ID the server saw for the target
+                let wire = rr.hist.iter().find_map(|e| match &e.kind {
+                    EvKind::SrvRecv { id, token, .. } if token == target => Some(*id),
+                    _ => None,
+                });
+                let Some(wire) = wire else { continue };
+                match abandons_seen.iter().position(|x| *x == wire) {
+                    Some(p) => {
+                        abandons_seen.remove(p);
+                    }
+                    None => v.push(Violation::new("C13", "C13.abandon-wire", format!("abandon-names-wrong-id/{}", lifecycle_class(sc, &rr.hist, target)), format!("abandon of {target} (wire ID {wire}) did not produce an AbandonRequest naming that ID"))),
+                }
+                // a caller waiting on an in-flight target must be released with an error
+                if lifecycle_class(sc, &rr.hist, target).ends_with("in-flight") {
+                    for (c2, cs2) in sc.clients.iter().enumerate() {
+                        for (ix2, st2) in cs2.steps.iter().enumerate() {
+                            if let Step::Op { token, .. } = st2 {
+                                if token == target {
+                                    match rets.get(&(c2, ix2)) {
+                                        Some((Ret::Err(_), ..)) => {}
+                                        Some((other, ..)) => v.push(Violation::new("C13", "C13.abandon-release", "abandoned-caller-not-error", format!("caller of abandoned {target} returned {:?}", other))),
+                                        None => {
+                                            if rr.verdict == crate::exec::Verdict::Done {
+                                                v.push(Violation::new("C13", "C13.abandon-release", "abandoned-caller-never-returned", format!("caller of abandoned {target} never returned")))
+                                            }
+                                        }
+                                    }
+                                }
+                            }
+                        }
+                    }
+                }
+            }
+        }
+    }
+    v
 }
